@@ -1,5 +1,6 @@
 (* The node registry as a state machine (node.py: NODE_REGISTRY, _get_next_unique_id, __post_init__ id
-   assignment, get / get_any, detach / detach_self / replace, duplicate; dataclasses.replace).
+   assignment, get / get_any, detach / detach_self / replace, duplicate; dataclasses.replace; constructions that
+   are rejected by a subclass's own __post_init__ AFTER the node was given its id and registered).
    Definitions only (plus Examples).  Shared by C03, C14 and C10.
 
    Heap of immutable cells (address = index = creation order; children by address), a registry
@@ -464,3 +465,20 @@ Arguments RSkip {A}. Arguments RBad {A}. Arguments ROk {A} x.
 
 (* no class validates after the base __post_init__ *)
 Definition no_late : st -> nat -> bool := fun _ _ => false.
+
+(* the validations the correspondence run generates: class k (and its subclasses, which inherit __post_init__)
+   raises ValueError after super().__post_init__() when the property f holds exactly the value v / when the id the
+   node has just been given ends with suf *)
+Inductive vrule := VReject (k f : pystr) (v : pval) | VIdSuffix (k suf : pystr).
+Definition ends_with (suf x : pystr) : bool :=
+  Nat.leb (length suf) (length x) && pystr_eqb (skipn (length x - length suf) x) suf.
+Definition late_of (ct : ctable) (rules : list vrule) (s : st) (a : nat) : bool :=
+  match cell_at s a with
+  | None => false
+  | Some c =>
+    existsb (fun r => match r with
+                      | VReject k f v => subclass ct (k_cls c) k &&
+                                         match assoc f (k_props c) with Some w => pval_eqb w v | None => false end
+                      | VIdSuffix k suf => subclass ct (k_cls c) k && ends_with suf (k_id c)
+                      end) rules
+  end.
